@@ -154,6 +154,7 @@ func init() {
 			for _, d := range scopeSpaces(tier) {
 				sp = append(sp, c06Space(d))
 			}
+			sp = append(sp, c06PoolSpace(tier))
 			return sp
 		},
 	})
